@@ -78,6 +78,8 @@ type Sched struct {
 	blockedOn [MaxTasks]uintptr
 	blockSite [MaxTasks]int
 	lastRun   [MaxTasks]int64
+	taskG     [MaxTasks]uintptr // goroutine identity of each task
+	Foreign   int64             // hook calls from goroutines that are not simulated tasks (ignored)
 	rfd, wfd  [MaxTasks + 1]int
 	pipes     bool
 	cur       int
@@ -219,6 +221,7 @@ func (s *Sched) BeginRun(n int, cfg StratCfg) {
 		s.blockedOn[i] = 0
 		s.StepsTask[i] = 0
 		s.lastRun[i] = 0
+		s.taskG[i] = 0
 		s.panicked[i] = false
 		s.panics[i] = ""
 	}
@@ -236,6 +239,7 @@ func (s *Sched) BeginRun(n int, cfg StratCfg) {
 	s.MaxBlocked = 0
 	s.SpinSwitches = 0
 	s.LockAcq = 0
+	s.Foreign = 0
 	s.Verdict = VOK
 	s.VTask, s.VSite = -1, -1
 	s.NTrace = 0
@@ -405,6 +409,10 @@ func Yield(site int) {
 	if self < 0 || self >= s.n {
 		return
 	}
+	if g := getg(); g != 0 && s.taskG[self] != 0 && g != s.taskG[self] {
+		s.Foreign++ // a goroutine the library started: it is not ours to schedule
+		return
+	}
 	cls := ClassO
 	loop := false
 	if site >= 0 && site < s.nsites {
@@ -550,6 +558,10 @@ func BeforeLock(p any, read bool, site int) {
 	if self < 0 || self >= s.n {
 		return
 	}
+	if g := getg(); g != 0 && s.taskG[self] != 0 && g != s.taskG[self] {
+		s.Foreign++
+		return
+	}
 	a := lockAddr(p)
 	for {
 		l := s.lockOf(a)
@@ -606,6 +618,10 @@ func BeforeUnlock(p any, read bool, site int) {
 	}
 	self := s.cur
 	if self < 0 || self >= s.n {
+		return
+	}
+	if g := getg(); g != 0 && s.taskG[self] != 0 && g != s.taskG[self] {
+		s.Foreign++
 		return
 	}
 	a := lockAddr(p)
@@ -732,7 +748,10 @@ func mainUnlock(a uintptr, read bool) {
 }
 
 //go:norace
-func taskStart(id int) { rawRead(S.rfd[id]) }
+func taskStart(id int) {
+	S.taskG[id] = getg()
+	rawRead(S.rfd[id])
+}
 
 //go:norace
 func taskDone(id int) {
